@@ -56,7 +56,7 @@ class Ctx:
             return len(self.faulty_subscripts)
         self._armed = True
         from .rules.er import unguarded_partial_lookups
-        bad = {id(ev.node) for g, ev, verdict in unguarded_partial_lookups(self) if verdict == 'unguarded'}
+        bad = {id(ev.node) for g, ev, verdict in unguarded_partial_lookups(self) if verdict.startswith('unguarded')}
         if bad:
             self.faulty_subscripts |= bad
             self._graphs.clear()
